@@ -83,20 +83,24 @@ type Mu struct {
 }
 
 type thread struct {
-	exit    chan struct{} // closed when the thread is over (gives Join a real happens-before edge)
-	sleeps  int           // Sleep calls since the thread last acquired a write lock (its "phase")
-	id      int
-	used    bool
-	done    bool
-	wait    int
-	rw      *RW
-	mu      *Mu
-	granted bool
-	wake    int64
-	join    int
-	cond    *int32
-	killed  bool
-	name    string
+	held      int  // locks currently held (any mode)
+	outerW    bool // holds, in write mode, a lock it acquired while holding nothing
+	outerLock *RW
+	outerMu   *Mu
+	exit      chan struct{} // closed when the thread is over (gives Join a real happens-before edge)
+	sleeps    int           // Sleep calls since the thread last acquired a write lock (its "phase")
+	id        int
+	used      bool
+	done      bool
+	wait      int
+	rw        *RW
+	mu        *Mu
+	granted   bool
+	wake      int64
+	join      int
+	cond      *int32
+	killed    bool
+	name      string
 }
 
 // PointRec is one recorded decision with more than one option.
@@ -176,6 +180,10 @@ type sched struct {
 	noTickChoice bool
 	// policy: when true no alternative is recorded at all (sequential engines)
 	sequential bool
+	// policy: no alternative is offered while the running thread holds, in write mode, an
+	// outermost lock (every step another thread could take either blocks on that lock
+	// or commutes with the holder's protected steps)
+	atomicOuter bool
 }
 
 var (
@@ -214,7 +222,9 @@ type Config struct {
 	MaxTicks     int
 	Sequential   bool // never record alternatives: choice 0 everywhere
 	NoTickChoice bool
-	Step         time.Duration
+	// AtomicOuterWrite: see sched.atomicOuter (a reduction; off by default)
+	AtomicOuterWrite bool
+	Step             time.Duration
 }
 
 //go:norace
@@ -240,6 +250,7 @@ func Run(cfg Config, main func()) *Exec {
 	}
 	s.sequential = cfg.Sequential
 	s.noTickChoice = cfg.NoTickChoice
+	s.atomicOuter = cfg.AtomicOuterWrite
 	s.finger = 1469598103934665603
 	setGlobals(s, true)
 	newThread(s, "main", main)
@@ -513,7 +524,7 @@ func decide(s *sched, self int) int {
 			n++
 		}
 		choice := 0
-		if n > 1 && !s.sequential {
+		if n > 1 && !s.sequential && !(s.atomicOuter && selfEnabled && s.threads[self].outerW) {
 			var mask uint32
 			for i := 1; i < n; i++ {
 				if selfEnabled || i == tickOpt {
@@ -848,6 +859,7 @@ func RLockModel(m *RW) bool {
 	traceEv(s, id, 'a', false)
 	if !m.wHeld {
 		m.readers++
+		t.held++
 		traceEv(s, id, 'g', false)
 		return true
 	}
@@ -856,6 +868,7 @@ func RLockModel(m *RW) bool {
 	t.wait = wRGrant
 	yield(s, id)
 	// readers was incremented by the granting Unlock
+	t.held++
 	traceEv(s, id, 'g', false)
 	return true
 }
@@ -868,6 +881,7 @@ func RUnlockModel(m *RW) bool {
 		return false
 	}
 	m.readers--
+	s.threads[id].held--
 	traceEv(s, id, 'u', false)
 	return true
 }
@@ -898,6 +912,11 @@ func LockModel(m *RW) bool {
 	}
 	m.writerActive = true
 	t.sleeps = 0
+	if t.held == 0 {
+		t.outerW = true
+		t.outerLock = m
+	}
+	t.held++
 	traceEv(s, id, 'g', true)
 	return true
 }
@@ -919,6 +938,12 @@ func UnlockModel(m *RW) bool {
 	}
 	m.wHeld = false
 	m.wOwner = -1
+	t := &s.threads[id]
+	t.held--
+	if t.outerLock == m {
+		t.outerW = false
+		t.outerLock = nil
+	}
 	traceEv(s, id, 'u', true)
 	return true
 }
@@ -938,6 +963,12 @@ func TryLockModel(m *RW) (ok bool, live bool) {
 	m.wHeld = true
 	m.wOwner = id
 	m.writerActive = true
+	t := &s.threads[id]
+	if t.held == 0 {
+		t.outerW = true
+		t.outerLock = m
+	}
+	t.held++
 	return true, true
 }
 
@@ -952,6 +983,7 @@ func TryRLockModel(m *RW) (ok bool, live bool) {
 		return false, true
 	}
 	m.readers++
+	s.threads[id].held++
 	return true, true
 }
 
@@ -972,6 +1004,11 @@ func MuLockModel(m *Mu) bool {
 		yield(s, id)
 	}
 	m.held = true
+	if t.held == 0 {
+		t.outerW = true
+		t.outerMu = m
+	}
+	t.held++
 	return true
 }
 
@@ -983,6 +1020,12 @@ func MuUnlockModel(m *Mu) bool {
 		return false
 	}
 	m.held = false
+	t := &s.threads[id]
+	t.held--
+	if t.outerMu == m {
+		t.outerW = false
+		t.outerMu = nil
+	}
 	return true
 }
 
@@ -997,6 +1040,12 @@ func MuTryLockModel(m *Mu) (ok bool, live bool) {
 		return false, true
 	}
 	m.held = true
+	t := &s.threads[id]
+	if t.held == 0 {
+		t.outerW = true
+		t.outerMu = m
+	}
+	t.held++
 	return true, true
 }
 
